@@ -466,7 +466,7 @@ fn run_s_raw(rep: &mut Report, d: &str, o0: &Opts, doc: &str) {
 
 // ------------------------------------------------------------------ generators
 
-const DELIMS: &[&str] = &["---", "+++", "%%", "-", "ab", "\u{04fc}", ";;;", "!@#", "a-a", "--", "***", "$", "..."];
+const DELIMS: &[&str] = &["---", "+++", "%%", "-", "ab", "\u{04fc}", ";;;", "!@#", "a-a", "--", "***", "$", "...", "--- ", "---\t", " ---", "- -"];
 
 fn gen_fm_doc(r: &mut Rng, corpus: &Corpus) -> (String, String) {
     let d = r.ps(DELIMS).to_string();
@@ -580,7 +580,7 @@ pub fn run(cfg: &Cfg, rep: &mut Report) {
     let m = Model::from_env();
     let mut rng = Rng::new(cfg.seed ^ 0xC20);
     let corpus = Corpus::load();
-    rep.rule = "K: split_off_front_matter (hook) vs the Lean model on every string of <= N symbols over {delimiter bytes, other, LF, CR, BOM} for the delimiters \"-\", \"ab\", \"---\" (exhaustive), and on generated front-matter-like documents (13 delimiters; LF/CRLF/mixed/CR endings; body lines containing/starting with the delimiter; mutations: not at start, opening/closing not alone, unterminated, EOF close, later delimiter lines, BOM) plus byte deletions; the parser's FrontMatter literal and tapped process_line calls vs the model's parseDoc; the model's lines vs the oracle's ref_lines. S: the same generated documents x random option vectors through parse/format_commonmark/format_html/format_xml against the line-based reading of the statement. distinct_nontrivial counts distinct (delimiter, text) pairs on which the real splitter returns Some.".into();
+    rep.rule = "K: split_off_front_matter (hook) vs the Lean model on every string of <= N symbols over {delimiter bytes, other, LF, CR, BOM} for the delimiters \"-\", \"ab\", \"---\" (exhaustive), and on generated front-matter-like documents (17 delimiters, four of them with a blank at an end or inside; LF/CRLF/mixed/CR endings; body lines containing/starting with the delimiter; mutations: not at start, opening/closing not alone, unterminated, EOF close, later delimiter lines, BOM) plus byte deletions; the parser's FrontMatter literal and tapped process_line calls vs the model's parseDoc; the model's lines vs the oracle's ref_lines. S: the same generated documents x random option vectors through parse/format_commonmark/format_html/format_xml against the line-based reading of the statement. distinct_nontrivial counts distinct (delimiter, text) pairs on which the real splitter returns Some.".into();
 
     // 1. K exhaustive
     let t = cfg.tier_thorough;
